@@ -142,6 +142,16 @@ def trace_part(run: Run, prop: str, env=None):
                 key = (r['spec']['variant'], r['spec']['n'], r['spec']['mode'], tuple(sorted(r['spec']['autos'])),
                        tuple((ev['op'], ev['out'], ev['a']['amt'], ev['a']['p']) for ev in r['steps'] if ev['op'] != 'none'))
                 run.nontrivial.add(hash(key))
+    if not run.rule:
+        run.rule = ('states/transitions: TLC totals over the exhaustive instances of spec/MC.tla (every invariant of spec/MC.cfg evaluated in '
+                    'every state) and over the trace validations; traces: hands of the real engine validated step by step (seeded random '
+                    'walks per batch in `parts`, replayed model behaviours, the repository\'s own tests); evaluations: recorded calls + '
+                    'queries judged by TLC; distinct_nontrivial: distinct (variant, players, mode, automation subset, call sequence with '
+                    'arguments and outcomes) among the random-walk hands that were created successfully and made at least one call')
+    run.assumptions = ['TLC 1.8 and the CommunityModules evaluate the specification correctly',
+                       'the Python projection (harness/pk.py) renames and integer-encodes State fields faithfully; it carries no judgement',
+                       'initial deck order and replenish shuffle are replaced by recorded / keyed deterministic functions (harness/pk.py)',
+                       'situations listed in known_findings.json are reported as KNOWN-FINDING and not counted as violations']
     run.need(*NEEDS.get(prop, []))
 
 
